@@ -2,6 +2,7 @@
 pub mod bankops;
 pub mod cfgsim;
 pub mod config;
+pub mod auth;
 pub mod curve;
 pub mod hops;
 pub mod oracle;
@@ -22,6 +23,7 @@ pub fn lookup(name: &str) -> Option<fn(&str) -> String> {
         "oracleliq" => oracle::run_liq,
         "config" => config::run,
         "cfgsim" => cfgsim::run,
+        "auth" => auth::run,
         _ => return None,
     })
 }
